@@ -177,8 +177,15 @@ func (c *MemoryCache[MetadataT]) cacheInternal(key CacheKey, data io.Reader, exp
 	}
 
 	c.mu.Lock()
+	replaced, wasReplaced := c.entries[key]
 	c.entries[key] = internalEntry
 	c.mu.Unlock()
+
+	if wasReplaced {
+		// Overwrite of an existing key: the old entry no longer counts
+		decrementCacheEntries()
+		decrementCacheSize(&c.byteSize, replaced.meta.Size)
+	}
 
 	incrementCacheEntries()
 	addCacheSize(&c.byteSize, int64(count))
